@@ -233,7 +233,7 @@ theorem getData_geometry (d : ImageData) (h : Header) (ps : List (List UInt8))
     · simp [hl] at hg
   all_goals
     by_cases hl : d.payload.length = sectionBytes h
-    · simp only [hl, if_true] at hg
+    · simp only [hl, if_true, Nat.lt_irrefl, if_false] at hg
       by_cases h0 : h.channels = 0
       · simp [h0] at hg
       · simp only [h0, if_false, Except.ok.injEq] at hg
@@ -241,7 +241,9 @@ theorem getData_geometry (d : ImageData) (h : Header) (ps : List (List UInt8))
         have := key _ hl h0
         rw [hl] at this
         exact this
-    · simp [hl] at hg
+    · by_cases hlt : sectionBytes h < d.payload.length
+      · simp [hl, hlt] at hg
+      · simp [hl, hlt] at hg
 
 /-! ### `save` in terms of `regenerate`; what a save keeps -/
 
